@@ -11,7 +11,7 @@ from common import (V, E3_METHODS, EXC_SERIAL, EXC_ALL, ebb_spec, PORT_NAMES, mk
 
 PROP = 'C15'
 LEVEL = 'exploration'
-N_QUICK = 16000
+N_QUICK = 80000
 N_THOROUGH = 2000000
 WALL_QUICK = 100
 WALL_THOROUGH = 1500
@@ -67,6 +67,17 @@ def triple(s):
     return t
 
 
+def fw3(spec):
+    """Firmware of a device spec as an integer triple (a report with fewer fields is padded with zeros:
+    3.0 is 3.0.0)."""
+    t = tuple(spec['fw'])
+    return (t + (0, 0, 0))[:3]
+
+
+GATE_STALE = ['OK', 'ERROR', 'AT+GMR: 1.0', '!8 Err: Unknown command', 'garbage 3.0.2', 'Axi 2.6.0', '9.9.9',
+              'Version 3.0.2', 'firmware version 3.0.2']     # none contains the text "Firmware Version "
+
+
 def spec_of(scn, port):
     for b in scn['world']['boards']:
         if b['port'] == port:
@@ -109,7 +120,7 @@ def check(scn, hist):
             if m == 'connect':
                 port = a['port_name']
                 spec = cur.get(port) if port is not None else None
-                supported = bool(spec is not None and spec.get('kind', 'ebb') == 'ebb' and tuple(spec['fw']) >= MIN
+                supported = bool(spec is not None and spec.get('kind', 'ebb') == 'ebb' and fw3(spec) >= MIN
                                  and 'version_text' not in spec)
                 if rec['exc'] is not None:
                     # after verification connect() lets a SerialException propagate today (observation O1);
@@ -135,7 +146,7 @@ def check(scn, hist):
                             out.append(V(PROP, 'connect_converse', m, oid,
                                          'prompt, fault-free handshake with supported %s: returned %r, err=%r'
                                          % (_descr(spec), rec['ret'], a['err'])))
-                        elif triple(a['version'] or '') != tuple(spec['fw']):
+                        elif triple(a['version'] or '') != fw3(spec):
                             out.append(V(PROP, 'connect_converse', m, oid, 'stored version %r for board %r'
                                          % (a['version'], spec['fw'])))
             elif m == 'min_version':
@@ -157,7 +168,7 @@ def check(scn, hist):
             spec = cur.get(port)
             if spec is None or spec.get('kind', 'ebb') != 'ebb':
                 continue
-            fw = tuple(spec['fw'])
+            fw = fw3(spec)
             probe_ok = _probe_ok(rec, hist, i, port)
             if fn == 'min_version' and mod == 'ebb_serial':
                 want = triple(args[1])
@@ -189,7 +200,7 @@ def check(scn, hist):
     # device-side invariant: an unsupported device gets nothing but version probes from the EBB3 layer
     for dev in hist.all_devices:
         spec = dev['spec']
-        supported = spec.get('kind', 'ebb') == 'ebb' and tuple(spec['fw']) >= MIN and 'version_text' not in spec
+        supported = spec.get('kind', 'ebb') == 'ebb' and fw3(spec) >= MIN and 'version_text' not in spec
         if supported:
             continue
         for reqno, op_id, text, lines in dev['log']:
@@ -327,7 +338,7 @@ def observe(scn, hist, st):
 
 def gen_triple(rng, around=None):
     if around is not None and rng.random() < 0.7:
-        t = list(around)
+        t = (list(around) + [0, 0, 0])[:3]
         i = rng.randrange(3)
         r = rng.random()
         if r < 0.3:
@@ -341,6 +352,8 @@ def gen_triple(rng, around=None):
             t[i] = rng.choice([10, 11, 25, 100])
             if rng.random() < 0.5 and i > 0:
                 t[i - 1] = max(0, t[i - 1] - 1)
+        if rng.random() < 0.04:
+            t = t[:rng.choice([1, 2])]          # a report / threshold with fewer fields: 3.0 means 3.0.0
         return t
     return [rng.choice([0, 1, 2, 2, 3, 3, 4, 10, 30]), rng.choice(COMPONENTS), rng.choice(COMPONENTS)]
 
@@ -430,6 +443,8 @@ def gen_connect(rng, idx):
             x = rng.random()
             if x < 0.25:
                 op = call(k, 'connect')
+            elif x < 0.2 + 0.15 and any(b.get('nick') for b in boards):
+                op = call(k, 'connect', [rng.choice([b['nick'] for b in boards if b.get('nick')])])   # by name tag
             elif x < 0.9:
                 op = call(k, 'connect', [tgt])
             else:
@@ -485,7 +500,7 @@ def gen_order(rng, idx):
     style = rng.choice(['mac', 'linux', 'win'])
     fw_l = gen_triple(rng, around=rng.choice([(2, 5, 5), (2, 6, 0), (2, 2, 3), (2, 9, 9), (2, 10, 0)]))
     fw_e = gen_triple(rng, around=rng.choice([MIN, (3, 10, 0), (3, 0, 10), (10, 0, 0)]))
-    if tuple(fw_e) < MIN:
+    if (tuple(fw_e) + (0, 0, 0))[:3] < MIN:
         fw_e = list(MIN)
     b0 = ebb_spec(PORT_NAMES[style][0], fw=fw_l, nick='L', style=style)
     b1 = ebb_spec(PORT_NAMES[style][1], fw=fw_e, nick='E', style=style)
@@ -577,7 +592,7 @@ def gen_gates(rng, idx):
                     reply.append({'at': [op['id'], 1], 'drop_request': True})
                 elif k == 'stale':
                     # (a substituted line must not itself claim a firmware version)
-                    reply.append({'at': [op['id'], 1], 'stale': {'text': rng.choice(NON_EBB_LINES[:4]) + '\r\n',
+                    reply.append({'at': [op['id'], 1], 'stale': {'text': rng.choice(GATE_STALE) + '\r\n',
                                                                  'instead': True}})
                 else:
                     reply.append({'at': [op['id'], 1], 'drop': 'all'})
@@ -606,7 +621,8 @@ def sweep_cells(tier):
     cells = [['order_legacy', i] for i in range(len(ORDER_FW))]
     cells += [['order_e3', i] for i in range(len(ORDER_FW))]
     cells += [['gates', i] for i in range(len(ORDER_FW))]
-    kinds = ['old', 'min', 'min-1', 'multi', 'foreign', 'silent', 'open_fails', 'absent', 'v2_99']
+    kinds = ['old', 'min', 'min-1', 'multi', 'foreign', 'silent', 'open_fails', 'absent', 'v2_99', 'short2', 'short1',
+             'short_ok']
     cells += [['connect', k] for k in kinds]
     cells += [['swap_gate', i] for i in range(len(SWAP_PAIRS))]
     cells += [['two_ports', i] for i in range(len(SWAP_PAIRS))]
@@ -776,6 +792,12 @@ def sweep_expand(cell):
         spec['fw'] = [MIN[0], MIN[1], MIN[2] + 8 if MIN[2] + 8 >= 10 else 10]
     elif kind == 'v2_99':
         spec['fw'] = [2, 99, 99]
+    elif kind == 'short2':
+        spec['fw'] = [MIN[0], MIN[1]] if MIN[2] > 0 else [MIN[0], max(0, MIN[1] - 1)]     # e.g. "3.0" < 3.0.2
+    elif kind == 'short1':
+        spec['fw'] = [MIN[0]] if (MIN[1], MIN[2]) > (0, 0) else [MIN[0] - 1]              # e.g. "3"  < 3.0.2
+    elif kind == 'short_ok':
+        spec['fw'] = [MIN[0], MIN[1] + 1]                                                   # e.g. "3.1" >= 3.0.2
     elif kind in ('foreign', 'silent'):
         spec['kind'] = kind
         spec['desc'] = 'EiBotBoard'
@@ -789,7 +811,7 @@ def sweep_expand(cell):
             call(0, 'query_statusbyte'), call(0, 'command', ['EM,1,1']), call(0, 'write_nickname', ['Zed'])]
     ops = [{'op': 'new', 'obj': 0}]
     for n in range(1, 4):
-        c = call(0, 'connect')
+        c = call(0, 'connect', ['C'] if n == 2 and kind not in ('absent',) else [])      # 2nd attempt: by name tag
         c['nth'] = n
         ops.append(c)
         ops += [dict(t) for t in tail]
